@@ -139,7 +139,12 @@ func (w *worker) runWS(f []string) string {
 	}
 	defer conn.Close()
 	// gorilla 1.5.1's default close handler turns "close already sent" into a read error; keep the CloseError
-	conn.SetCloseHandler(func(int, string) error { return nil })
+	// answer the peer's close frame (the bridge now waits for the answer before it closes the connection, fix D32) but
+	// never turn a failure of that write into the read error: the close code is what is observed
+	conn.SetCloseHandler(func(code int, _ string) error {
+		_ = conn.WriteControl(websocket.CloseMessage, websocket.FormatCloseMessage(code, ""), time.Now().Add(time.Second))
+		return nil
+	})
 
 	firstJSONBad := "na" // is the FIRST frame the client sends a text message with syntactically invalid JSON?
 	sentAny := false
